@@ -6,6 +6,18 @@ import json, os, subprocess, sys, shutil, tempfile, concurrent.futures as cf
 ROOT = os.path.dirname(os.path.dirname(os.path.abspath(__file__)))
 REPO = os.environ.get("VERIF_REPO", "/repo")
 
+
+def prep_verif(ver):
+    """scratch /verif for a run against a scratch repo: the committed findings, witnesses and bounded stand-ins"""
+    shutil.copy(os.path.join(ROOT, "known_findings.json"), ver)
+    shutil.copytree(os.path.join(ROOT, "findings"), os.path.join(ver, "findings"))
+    for extra in ("bounded.json", "undecided.json"):
+        if os.path.exists(os.path.join(ROOT, extra)):
+            shutil.copy(os.path.join(ROOT, extra), ver)
+    if os.path.isdir(os.path.join(ROOT, "bounded")):
+        shutil.copytree(os.path.join(ROOT, "bounded"), os.path.join(ver, "bounded"))
+
+
 def load():
     ents = []
     for line in open(os.path.join(ROOT, "selftest", "expect.tsv")):
@@ -22,8 +34,7 @@ def run_one(ent):
         repo = os.path.join(tmp, "repo"); ver = os.path.join(tmp, "verif")
         shutil.copytree(REPO, repo, ignore=shutil.ignore_patterns(".git"))
         os.makedirs(ver)
-        shutil.copy(os.path.join(ROOT, "known_findings.json"), ver)
-        shutil.copytree(os.path.join(ROOT, "findings"), os.path.join(ver, "findings"))
+        prep_verif(ver)
         p = subprocess.run(["patch", "-p1", "-s", "-d", repo, "-i", os.path.join(ROOT, patch)], capture_output=True, text=True)
         if p.returncode != 0:
             return (patch, prop, "PATCH-FAILED", p.stdout + p.stderr)
